@@ -19,9 +19,18 @@ fn expected_alias(w: u16) -> Option<&'static [&'static str]> {
     }
 }
 
-fn check(w: u16, origin: u16, debug: bool) -> Option<(String, String)> {
+/// the ways a caller can print a statement: plain, and with a width / alignment / sign / zero-padding / alternate / precision in the format spec
+/// (listings are usually printed in columns)
+const SPECS: usize = 9;
+fn print_with(w: u16, spec: usize) -> String {
+    let s = disassemble_line(w);
+    match spec { 0 => format!("{s}"), 1 => format!("{s:24}"), 2 => format!("{s:>24}"), 3 => format!("{s:^24}"), 4 => format!("{s:+}"), 5 => format!("{s:08}"), 6 => format!("{s:#}"), 7 => format!("{s:.3}"), _ => format!("{s:<+#012.2}") }
+}
+fn check(w: u16, origin: u16, debug: bool) -> Option<(String, String)> { check_spec(w, origin, debug, 0) }
+fn check_spec(w: u16, origin: u16, debug: bool, spec: usize) -> Option<(String, String)> {
     let r = catch(|| {
-        let text = format!("{}", disassemble_line(w));
+        let text = print_with(w, spec);
+        let text = if spec == 0 { text } else { text.trim().to_string() };
         let src = format!(".orig x{origin:04X}\n{text}\n.end\n");
         let ast = match parse_ast(&src) { Ok(a) => a, Err(e) => return Err((format!("reparse:{}", text.split(' ').next().unwrap_or("")), format!("{w:#06x} prints as `{text}` which does not parse: {e:?}"))) };
         let obj = if debug { assemble_debug(ast, &src) } else { assemble(ast) };
@@ -55,6 +64,17 @@ pub fn run(ctx: &Ctx) -> Report {
         if let Some((sig, d)) = check(w, o, debug) { acc.violation(sig, format!("{w}:{o}:{}", debug as u8), d); }
     });
     rep.absorb(r);
+    // every word printed under 8 non-default format specs: the printed text (less surrounding blanks) goes through the same judgement unless it
+    // is the default text (which the sweep above has judged)
+    let r = sweep(ctx, 65536 * (SPECS as u64 - 1), 2048, |i, acc| {
+        let (w, spec) = ((i % 65536) as u16, (i / 65536) as usize + 1);
+        acc.evals += 1; acc.transitions += 1; acc.count("printed_with_format_spec", 1);
+        let same = catch(|| print_with(w, spec).trim() == print_with(w, 0)).unwrap_or(false);
+        if same { return; }
+        acc.count("format_spec_changes_text", 1);
+        if let Some((sig, d)) = check_spec(w, 0x3000, false, spec) { acc.violation(format!("spec{spec}:{sig}"), format!("f:{w}:{spec}"), format!("printed with format spec #{spec}: {d}")); }
+    });
+    rep.absorb(r);
     // the slice form `disassemble(&[u16])` must give, position by position, what `disassemble_line` gives (which the sweep above judges):
     // slices of 0, 1, 255, 256, 257 words, one full memory image, and three images back to back (196608 words, every word thrice)
     for (k, len) in [0usize, 1, 255, 256, 257, 65535, 65536, 65537, 3 * 65536].iter().enumerate() {
@@ -84,5 +104,6 @@ fn check_slice(len: usize) -> Option<(String, String)> {
 pub fn replay(case: &str) -> Option<String> {
     if let Some(k) = case.strip_prefix("slice:") { return check_slice(*SLICE_LENS.get(k.parse::<usize>().ok()?)?).map(|x| x.1); }
     let p: Vec<&str> = case.split(':').collect();
+    if p[0] == "f" { return check_spec(p.get(1)?.parse().ok()?, 0x3000, false, p.get(2)?.parse().ok()?).map(|x| x.1); }
     check(p.first()?.parse().ok()?, p.get(1)?.parse().ok()?, p.get(2).map(|x| *x == "1").unwrap_or(false)).map(|x| x.1)
 }
